@@ -866,6 +866,9 @@ func valuesInRemovalOrder(c *Ctx, ct *types.Named, fn *ssa.Function, popEnd stri
 	if st, why, ok := inPlaceReversal(gc, isListValues, ev); ok {
 		return st, why
 	}
+	if st, why, ok := ownIteratorFill(c, ct, gc, LIST, ev); ok {
+		return st, why
+	}
 	// form A: dst[a(i)] = list.Get(b(i)) with a(i)+b(i) = S-1, b running over 0..S-1
 	var entry, done, step *GC
 	for _, g := range gc.GCs {
@@ -1093,12 +1096,31 @@ func ruleR19b(c *Ctx, r *RuleResult) {
 	clIdx := "R19b-index the ring slice is indexed only by start, end or (start+i) % capacity"
 	clEvict := "R19b-evict Enqueue on a full ring first discards the oldest element (Dequeue) and only then writes the slot; on a non-full ring it discards nothing"
 	clDeq := "R19b-dequeue Dequeue/Peek on an empty ring change nothing and return (zero,false); otherwise they read the slot at start"
+	// the step replay (rules_ring.go): where it reaches a verdict it stands for the shape clauses of that method
+	clStep := "R19b-step Enqueue writes the slot at the old end, advances end with its wrap, gives up the oldest element (start advances with its wrap) exactly when size == capacity, and sets full iff the new end meets start; Dequeue leaves an empty ring alone and otherwise returns the slot at the old start, advances start with its wrap and clears full — replayed on every path with the ring's helpers expanded and field loads dated by their versions"
+	stepV := map[string]string{}
+	for _, nm := range []string{"Enqueue", "Dequeue"} {
+		v, why := ringReplay(c, ms, nm)
+		stepV[nm] = v
+		o := Obligation{Key: "R19b-step:" + tk + "." + nm, Rule: "R19b-step", Clause: clStep, Pos: pos, Status: Discharged, Facts: why}
+		switch v {
+		case "bad":
+			o.Status = Violated
+		case "":
+			o.Facts = "NOT DECIDED (the shape clauses R19b-evict/-wrap/-dequeue decide): " + why
+		}
+		r.add(o)
+	}
 	// wrap
 	var badW []string
 	nadv := 0
 	for _, name := range sortedNames(ms) { // every method of the ring, loaders included: the index invariant 0 <= start,end < capacity is global
 		fn := ms[name]
 		if fn == nil {
+			continue
+		}
+		if stepV[name] == "ok" {
+			nadv++
 			continue
 		}
 		for _, g := range c.GC(fn).GCs {
@@ -1199,7 +1221,9 @@ func ruleR19b(c *Ctx, r *RuleResult) {
 	put("R19b-index", clIdx, badI, fmt.Sprintf("%d ring accesses, all through start / end / (start+i)%%capacity", nidx))
 	// evict before write
 	var badE []string
-	if enq := ms["Enqueue"]; enq != nil {
+	if stepV["Enqueue"] == "ok" {
+		// decided by the replay
+	} else if enq := ms["Enqueue"]; enq != nil {
 		nfull := 0
 		for _, g := range c.GC(enq).GCs {
 			full := 0 // 1 full, -1 not full
@@ -1248,6 +1272,9 @@ func ruleR19b(c *Ctx, r *RuleResult) {
 		fn := ms[name]
 		if fn == nil {
 			badD = append(badD, name+" not found")
+			continue
+		}
+		if stepV[name] == "ok" {
 			continue
 		}
 		nEmpty, nNon := 0, 0
@@ -1712,4 +1739,105 @@ func isIndexOfHelper(c *Ctx, fn *ssa.Function, order string) bool {
 		}
 	}
 	return nMatch == 1 && nMiss == 1 && nEnd == 1
+}
+
+// ownIteratorFill recognises form C of a tail-removing adapter's Values(): a result of length Size() filled, for every step of
+// the adapter's own iterator, at slot it.Index() with it.Value() — where Value() at index i reads the inner list at
+// Size()-1-i (that the index runs over 0..Size()-1 is the cursor protocol, R14move).
+func ownIteratorFill(c *Ctx, ct *types.Named, gc *GCNF, LIST string, ev func(*Term) lin) (Status, string, bool) {
+	p := c.p
+	var entry, done, step *GC
+	for _, g := range gc.GCs {
+		switch {
+		case g.From == 0 && entry == nil:
+			entry = g
+		case g.From != 0 && g.Exit.Op == "return" && done == nil:
+			done = g
+		case g.From != 0 && g.Exit.Op == "goto" && step == nil:
+			step = g
+		default:
+			return 0, "", false
+		}
+	}
+	if entry == nil || done == nil || step == nil || entry.Exit.Op != "goto" || len(entry.Effects) != 0 || len(step.Effects) != 2 || len(done.Effects) != 1 || len(done.Exit.Args) != 1 {
+		return 0, "", false
+	}
+	nx := step.Effects[0]
+	if !(nx.Op == "do" && strings.HasSuffix(nx.Leaf, ").Next") && len(nx.Args) == 1 && done.Effects[0].String() == nx.String()) {
+		return 0, "", false
+	}
+	IT := nx.Args[0]
+	itf := methodsOf(p, ct)["Iterator"]
+	if itf == nil {
+		return 0, "", false
+	}
+	if !(IT.Op == "call" && IT.Leaf == p.FuncKey(itf) && len(IT.Args) == 2 && IT.Args[1].String() == "p:0") {
+		return 0, "", false
+	}
+	itType := namedOf(itf.Signature.Results().At(0).Type())
+	if itType == nil {
+		return 0, "", false
+	}
+	ownerF, _ := iterOwner(p, itType)
+	stepped := false
+	for _, a := range step.Guards {
+		if a.Op == "res" && len(a.Args) == 1 && a.Args[0].String() == nx.String() {
+			stepped = true
+		}
+	}
+	if !stepped {
+		return 0, "", false
+	}
+	// the iterator's owner field is the receiver
+	var norm func(t *Term) *Term
+	norm = func(t *Term) *Term {
+		if t.Op == "load" && len(t.Args) == 1 && t.Args[0].Op == "fa" && t.Args[0].Leaf == ownerF && len(t.Args[0].Args) == 1 && t.Args[0].Args[0].String() == IT.String() {
+			return leaf("p", "0")
+		}
+		if len(t.Args) == 0 {
+			return t
+		}
+		n := &Term{Op: t.Op, Leaf: t.Leaf, Args: make([]*Term, len(t.Args))}
+		for i, a := range t.Args {
+			n.Args[i] = norm(a)
+		}
+		return n
+	}
+	res := done.Exit.Args[0]
+	if res.Op != "makeslice" || ev(norm(res.Args[0])).String() != "S" {
+		return Violated, "the result is not a slice of length Size(): " + trunc(noEpoch(done.Exit), 160), true
+	}
+	ef := step.Effects[1]
+	if !(isStore(ef) && ef.Args[0].Op == "ia" && noEpoch(ef.Args[0].Args[0]) == noEpoch(res)) {
+		return 0, "", false
+	}
+	slot := ef.Args[0].Args[1]
+	if !(slot.Op == "load" && len(slot.Args) == 1 && slot.Args[0].Op == "fa" && slot.Args[0].Leaf == "index" && slot.Args[0].Args[0].String() == IT.String()) {
+		return 0, "", false
+	}
+	src := ef.Args[1]
+	if src.Op == "ext" && src.Leaf == "0" {
+		src = src.Args[0]
+	}
+	src = norm(src)
+	if !(src.Op == "call" && strings.HasSuffix(src.Leaf, ").Get") && len(src.Args) == 3 && noEpoch(src.Args[1]) == LIST) {
+		return 0, "", false
+	}
+	// the same reading of the cursor on both sides
+	same := true
+	src.Args[2].any(func(x *Term) bool {
+		if x.Op == "load" && len(x.Args) == 1 && x.Args[0].Op == "fa" && x.Args[0].Leaf == "index" && x.String() != slot.String() {
+			same = false
+		}
+		return false
+	})
+	if !same {
+		return 0, "", false
+	}
+	a, b := ev(slot), ev(src.Args[2])
+	Sm1 := linAtom("S").add(linConst(1), -1)
+	if sum := a.add(b, 1); sum.String() != Sm1.String() {
+		return Violated, fmt.Sprintf("slot %s is filled from list position %s: the two do not add up to Size()-1, so Values() is not the reverse of the list (= the removal order)", a.String(), b.String()), true
+	}
+	return Discharged, "result[it.Index()] = it.Value() for every step of the own iterator, whose Value() at index i reads list position Size()-1-i", true
 }
